@@ -297,6 +297,16 @@ fn run_residual_grid(rep: &Arc<Report>, thorough: bool, only: Option<ResCase>) {
 
 fn header_numbers() -> Vec<(bool, u64)> {
     let mut v = Vec::new();
+    // every power of two (a wrong length formula may put its boundaries anywhere)
+    for b in 1..=36u32 {
+        let c = 1u64 << b;
+        for n in [c - 2, c - 1, c, c + 1, c + 2] {
+            if n <= u32::MAX as u64 {
+                v.push((false, n));
+            }
+            v.push((true, n));
+        }
+    }
     for b in [0u32, 7, 11, 16, 21, 26, 31, 32, 36] {
         let c = if b == 0 { 0u64 } else { 1u64 << b };
         for d in 0..=64u64 {
